@@ -1348,3 +1348,103 @@ Proof.
   intros Ha Hv. destruct (alpha_new_min_chars _ _ _ _ _ Ha) as (Hm & _).
   destruct (alpha_value_charset_len mask nbits bpc _ _ _ _ _ _ Hv) as [Hc Hl]. split; [lia|exact Hc].
 Qed.
+
+(* ================================================================ one generator, several names *)
+
+Lemma st_lookup_map (f : nat -> nat) st nm :
+  st_lookup (map (fun e => (fst e, f (snd e))) st) nm = option_map f (st_lookup st nm).
+Proof.
+  induction st as [|e r IH]; [reflexivity|].
+  cbn [map st_lookup fst snd]. destruct (Nat.eqb (fst e) nm); [reflexivity|exact IH].
+Qed.
+
+Lemma st_lookup_In st nm g : st_lookup st nm = Some g -> In g (map snd st).
+Proof.
+  induction st as [|e r IH]; cbn [st_lookup map]; [discriminate|].
+  destruct (Nat.eqb (fst e) nm).
+  - intros H. injection H as H. left. exact H.
+  - intros H. right. exact (IH H).
+Qed.
+
+Lemma gen_position_inj l x y : In x l -> In y l -> gen_position x l = gen_position y l -> x = y.
+Proof.
+  induction l as [|z r IH]; [intros []|].
+  intros Hx Hy. cbn [gen_position].
+  destruct (Nat.eqb z x) eqn:Ex; destruct (Nat.eqb z y) eqn:Ey.
+  - apply Nat.eqb_eq in Ex. apply Nat.eqb_eq in Ey. congruence.
+  - discriminate.
+  - discriminate.
+  - intros H. injection H as H. apply IH; [| |exact H].
+    + destruct Hx as [Hx|Hx]; [|exact Hx]. subst z. rewrite Nat.eqb_refl in Ex. discriminate.
+    + destruct Hy as [Hy|Hy]; [|exact Hy]. subst z. rewrite Nat.eqb_refl in Ey. discriminate.
+Qed.
+
+(* A continuation keeps the sharing: two names denote the same generator afterwards exactly when they did
+   before; and what they denote afterwards is a generator made by the continuation (its number lies above
+   every generator that existed before: a new constructor call, a new context number). *)
+Lemma names_continue_keeps_sharing st a b ga gb :
+  st_lookup (ns_store st) a = Some ga -> st_lookup (ns_store st) b = Some gb ->
+  exists ga' gb',
+    st_lookup (ns_store (fst (n_continue st))) a = Some ga' /\
+    st_lookup (ns_store (fst (n_continue st))) b = Some gb' /\
+    (ga = gb <-> ga' = gb') /\
+    (length (ns_made st) <= ga')%nat /\ (length (ns_made st) <= gb')%nat.
+Proof.
+  intros Ha Hb. unfold n_continue. cbn [fst ns_store].
+  rewrite !(st_lookup_map (fun g => (length (ns_made st) + gen_position g (reachable (ns_store st)))%nat)).
+  rewrite Ha, Hb. cbn [option_map].
+  eexists. eexists. split; [reflexivity|]. split; [reflexivity|]. split; [|split; lia].
+  split.
+  - intros ->. reflexivity.
+  - intros H. apply Nat.add_cancel_l in H.
+    apply (gen_position_inj (reachable (ns_store st))); [| |exact H]; unfold reachable; apply nodup_In.
+    + exact (st_lookup_In _ _ _ Ha).
+    + exact (st_lookup_In _ _ _ Hb).
+Qed.
+
+(* every program over names is a sequence of operations of the process machine: its keys are pairwise
+   different (no (context, index) pair is used twice, whatever the names, the aliases and the continuations) *)
+Lemma names_keys_NoDup c0 prog :
+  NoDup (names_keys c0 prog) /\ NoDup (map key_ci (names_keys c0 prog)).
+Proof. split; [apply process_keys_NoDup_full|apply process_keys_NoDup]. Qed.
+
+Section NamesP.
+  Variable mask : Z -> Z -> Z.
+  Variable nbits : Z -> Z.
+  Variable bpc : Z -> Z.
+
+  (* one generator (one spec, one context number), template containing `index` — with or without `context`:
+     different indexes, different values *)
+  Lemma rvalue_same_gen_inj r c i i' v :
+    comparable r r -> In PIndex (spec_tpl r) ->
+    rvalue mask nbits bpc r c i = Ok v -> rvalue mask nbits bpc r c i' = Ok v -> i = i'.
+  Proof.
+    destruct r as [tpl pid rand|tpl pid a]; cbn [comparable spec_tpl].
+    - intros _ Hi. unfold rvalue, bind.
+      destruct (num_value mask nbits tpl pid c i rand) as [z|] eqn:E; [|discriminate].
+      destruct (num_value mask nbits tpl pid c i' rand) as [z'|] eqn:E'; [|discriminate].
+      intros H H'. injection H as <-. injection H' as ->.
+      exact (proj1 (num_value_inj mask nbits _ _ _ _ _ _ _ _ _ Hi eq_refl E E')).
+    - intros (_ & _ & _ & _ & Hnd & Hlen) Hi. unfold rvalue, bind.
+      destruct (alpha_value mask nbits bpc a tpl pid c i) as [z|] eqn:E; [|discriminate].
+      destruct (alpha_value mask nbits bpc a tpl pid c i') as [z'|] eqn:E'; [|discriminate].
+      intros H H'. injection H as <-. injection H' as ->.
+      exact (proj1 (alpha_value_inj mask nbits bpc _ _ _ _ _ _ _ _ _ _ eq_refl eq_refl Hnd Hlen Hi eq_refl E E')).
+  Qed.
+
+  (* two draws of a program over names that land on the same generator give the same value only if they are
+     the same draw *)
+  Lemma names_values_distinct c0 prog p q r c i i' v :
+    nth_error (names_keys c0 prog) p = Some (r, c, i) ->
+    nth_error (names_keys c0 prog) q = Some (r, c, i') ->
+    comparable r r -> In PIndex (spec_tpl r) ->
+    rvalue mask nbits bpc r c i = Ok v -> rvalue mask nbits bpc r c i' = Ok v -> p = q.
+  Proof.
+    intros Hp Hq Hcmp Hi Hv Hv'.
+    assert (i = i') as <- by exact (rvalue_same_gen_inj _ _ _ _ _ Hcmp Hi Hv Hv').
+    destruct (names_keys_NoDup c0 prog) as [Hnd _].
+    rewrite NoDup_nth_error in Hnd. apply Hnd.
+    - apply nth_error_Some. rewrite Hp. discriminate.
+    - rewrite Hp, Hq. reflexivity.
+  Qed.
+End NamesP.
